@@ -4,7 +4,11 @@ check("C01", "model_checking",
       "templates; every construct in every type-compatible hole of every other; six harness contexts: start, global initialiser, live across a recursive "
       "call on either side, closure per loop iteration, blob method; ~14k programs) with spec invariants (heap well-formed, the typed generator never gets "
       "stuck) and prints the expected trace; each program is rendered, compiled by the real compiler, run in minilua, and the print sequence and terminal "
-      "status must be equal. Bounded-exhaustive over that universe; thorough adds random larger programs executed by the specification.",
+      "status must be equal. Bounded-exhaustive over that universe. "
+      "Second direction (trace validation, spec/Trace_Sem.tla, docs/C01-corpus.md): the maintainers' own programs under /repo/tests (not generated from the "
+      "specification) are compiled and run by the real tool chain, the run is recorded (program as the real parser read it, printed lines, terminal status) and "
+      "TLC executes each recorded program with SyltSem and accepts the record only if SyltSem's print texts and status equal the recorded ones (thorough: all "
+      "in-model files, ~200 of the 223 the compiler accepts; quick: a seeded stratified sample of 40); corrupted recordings and altered programs are negative controls.",
       "Trusted: TLC, SyltSem/SyltValues as the reading of 'what the source denotes', the printer, minilua as stand-in for Lua 5.3 (none exists in the sandbox). "
       "Numbers are small ints and dyadic floats; dict/set iteration order, i64 overflow and float rounding are outside the model.",
       "TLA+ reference semantics executed by TLC over a pairwise-nesting program universe; replay into compiler + Lua interpreter", "DESIGN.md 5.6, 8/C01")
